@@ -2,7 +2,7 @@
 any inbound byte counts.
 
 Correspondence: real soup client / soup server / FIX sessions under the virtual-time loop against Model/Monitor.lean
-(driver drv_C08, op `hb.run`): close time and who closed, plus every write (concurrent local activity); and bare
+(driver drv_C08, op `hb.run`): close time and who closed, under concurrent local activity; and bare
 `HeartbeatMonitor`s with tolerance 0..3 and both stop flags (op `mon.run`): trip times.
 Oracle (implementation only), with the interval of the *peer's role* and n = 1 for sessions:
 (a) no byte in (p, p+(n+1)P] => closed by p+(n+1)P;  (b) closed for inactivity => some window of length P without a byte;
@@ -196,7 +196,9 @@ def check_case(ctx, case, model_line, tag):
         ctx.count('closed:' + (obs['closed'][1] if obs['closed'] else 'no'))
         ctx.count('intervals:' + ('equal' if case['ci'] == case['si'] else 'unequal'))
     fails = oracle(case, obs)
-    if fails:
+    if fails and len(ctx.violations) >= 3:        # enough minimised examples: record the rest as they are
+        mc.report(ctx, f"{case['role']} (client interval {case['ci']}, server interval {case['si']}): {fails[0]}", classify(case, obs, fails))
+    elif fails:
         kind = classify(case, obs, fails)['kind']
 
         def still(c):
@@ -209,9 +211,11 @@ def check_case(ctx, case, model_line, tag):
         rep = classify(small, o2, f2)
         mc.report(ctx, f"{small['role']} (client interval {small['ci']}, server interval {small['si']}): {f2[0]}", rep)
     if model_line is not None:
+        # C09 speaks about the close (when, by whom) — the writes are C08's observable and are compared there
         m = mc.parse_model(model_line)
-        if mc.canon(obs) != mc.canon(m):
-            ctx.disagree(f"hb.run {describe(case)[:150]}: implementation {json.dumps(mc.canon(obs))[:300]} vs model {json.dumps(mc.canon(m))[:300]}",
+        ci, cm = mc.canon(obs), mc.canon(m)
+        if 'error' in ci or 'error' in cm or ci['closed'] != cm['closed']:
+            ctx.disagree(f"hb.run {describe(case)[:150]}: implementation closed={json.dumps(ci.get('closed', ci))} vs model closed={json.dumps(cm.get('closed', cm))}",
                          dict(case, kind='correspondence'))
     return obs
 
@@ -252,9 +256,9 @@ def run(ctx):
                 cases.append(('exhaustive', c))
     for c in unequal_server_cases(rng, 30 if thorough else 8):
         cases.append(('server-unequal', c))
-    for _ in range(6000 if thorough else 420):
+    for _ in range(16000 if thorough else 1300):
         cases.append(('random', random_case(rng, thorough)))
-    mons = [random_monitor(rng) for _ in range(3000 if thorough else 300)]
+    mons = [random_monitor(rng) for _ in range(6000 if thorough else 600)]
     lines = [mc.model_request(c) for _, c in cases] + [mc.monitor_request(m) for m in mons]
     ans = ctx.driver.ask(lines) if ctx.driver.available else [None] * len(lines)
     for (tag, c), a in zip(cases, ans):
